@@ -121,6 +121,7 @@ def flat(lay):
         for i, (gene, br) in enumerate(sub.branches.items()):
             key = f"{species.name}.branch[{i}:{'loss' if rc.is_pseudo(gene) else gene.name}]"
             out.append((key + ".kind", (br.kind.name,)))
+            out.append((key + ".color", (str(br.color),)))
             out.append((key + ".rect", tuple(br.rect)))
             for f in ("anchor_parent", "anchor_left", "anchor_right", "anchor_child"):
                 out.append((key + "." + f, tuple(getattr(br, f))))
